@@ -30,6 +30,12 @@ CHECKS = {
    design_ref="DESIGN.md section 4 C19",
    note="Layer B is bounded in the requested size (stated bound) though universal in the bounds; layer A is unbounded but covers only the extracted comprehension - the two are not mechanically connected. Not under contract: default-bounds special values (inf/huge/nan plumbing), complex/pair/triple Cartesian products. Assumed: numpy.unique on a non-decreasing array removes repeated neighbours; int(a/b) over-approximated; diff_ulp replaced by its C14 contract; E2 NumPy models.",
    technique="contract-based deductive verification: AST-extracted kernel as Int/NIA lemmas + symbolic execution of the real code object with per-path QF_FPBV verification conditions (z3)"),
+ "C07": dict(
+   category="proof",
+   text="Structural identity is reduced to an invariant WF(ctx) of every construction (induction over the history) plus injectivity of the keys, all over the real key functions run on abstract objects assembled from the real function objects: two-level operand keys injective under WF (symbolic intkeys), operator keys equal iff kind/arity/operand keys equal (arity 0..4), key spaces of symbols/constants/operators disjoint, constant value keys (built by the real _compute_serialized on symbolic float16/32/64/longdouble/float payloads) equal under Python dict semantics iff the payloads have the same class and bit pattern, _register_expression looks up or registers under exactly that key with a fresh id and writes nothing else, Type singletons, normalize_like preserves the reference type.",
+   design_ref="DESIGN.md section 4 C07",
+   note="Assumed: Python dict/tuple equality semantics, IEEE == of float payloads, injectivity of float repr on non-NaN values. Known finding (open): NaN payloads are never shared (harmless duplicates). Expr.__new__'s operand normalisation and the alternative constant context are not under contract; operator arities enumerated to 4; O4/O5 are exhaustive finite enumerations, not SMT.",
+   technique="contract-based deductive verification: real key/registration functions on abstract objects, injectivity obligations in QF_FP/LIA/UF discharged by z3; invariant (WF) preserved by the registration contract"),
 }
 NA_PENDING = "check not built yet in this session (planned, see DESIGN.md section 4)"
 NA = {
@@ -60,7 +66,7 @@ def main():
       "hooks": {"guard": "FUNCTIONAL_ALGORITHMS_VERIF", "enable": "no hooks are needed: engines instrument through namespaces/subclasses created in /verif; checks import /repo's working tree with PYTHONPATH=/repo", "baseline_off_cmd": "cd /repo && /venv/bin/python -m pytest -ra -q -p no:cacheprovider --timeout=900 --continue-on-collection-errors", "source_commits": [], "add_only": True},
       "engines": [
         {"name": "E0 core", "path": "vf/core.py", "serves_properties": sorted(CHECKS), "kind_free_text": "obligation pool, z3/cvc5 portfolio, verdict protocol, evidence/replay writer"},
-        {"name": "E2 symrun", "path": "vf/symrun.py", "serves_properties": ["C14", "C18", "C19"], "kind_free_text": "runs real code objects on symbolic NumPy scalars / ints with shadowed builtins; decision-prefix path forking; per-path VCs"},
+        {"name": "E2 symrun", "path": "vf/symrun.py", "serves_properties": ["C07", "C14", "C18", "C19"], "kind_free_text": "runs real code objects on symbolic NumPy scalars / ints with shadowed builtins; decision-prefix path forking; per-path VCs"},
         {"name": "E4 ring", "path": "vf/ring.py", "serves_properties": ["C16"], "kind_free_text": "canonical-form polynomial/rational-function arithmetic with path forking on zero tests"},
       ],
       "checks": checks,
